@@ -7,8 +7,8 @@ import (
 	"golang.org/x/tools/go/callgraph"
 	"golang.org/x/tools/go/callgraph/cha"
 	"golang.org/x/tools/go/callgraph/vta"
-	"golang.org/x/tools/go/ssa/ssautil"
 	"golang.org/x/tools/go/ssa"
+	"golang.org/x/tools/go/ssa/ssautil"
 )
 
 // StaticGraph is the exact static-callee graph of the module's functions
